@@ -159,3 +159,23 @@ def phases(tier):
       {'name': 'static', 'kind': 'hyp', 'strategy': lambda: cases(tier),
        'run': check_case, 'examples': int((120000 if big else 2000) * k)},
   ]
+
+
+def kf_bias_int32_saturated(spec, violation):
+  """The returned model stores an int32 bias code at the end of the type: the
+  bias does not fit bias_scale = input_scale x weight_scale (degenerate input
+  range, e.g. an activation that is constant on the calibration data, times a
+  tiny weight channel)."""
+  out = engine.run(spec)
+  if not out.ok:
+    return False
+  q = fb.parse(out.qbytes)
+  lim = 2 ** 31 - 1
+  for si, sg in enumerate(q['subgraphs']):
+    for ti, t in enumerate(sg['tensors']):
+      if t['type'] == fb.TT.INT32 and t['scale'] is not None and fb.is_const(q, t):
+        codes = fb.tensor_constant(q, si, ti).astype(np.int64)
+        if codes.size and np.any(np.abs(codes) >= lim):
+          return True
+  return False
+
